@@ -366,7 +366,20 @@ func c04R2(c *Ctx, rule string) {
 	// Seal(dst, nonce, plaintext, aad): invoke → Args = [dst, nonce, plaintext, aad]
 	nonceOK := func(nonce ssa.Value, header *ssa.Slice) bool {
 		sl, ok := nonce.(*ssa.Slice)
-		return ok && sl.X == ssa.Value(header) && sl.Low == nil && sl.High != nil && isNonceSizeOf(sl.High)
+		if !ok || sl.High == nil || !isNonceSizeOf(sl.High) {
+			return false
+		}
+		if sl.Low != nil {
+			if k, isK := intConst(sl.Low); !isK || k != 0 {
+				return false
+			}
+		}
+		if sl.X == ssa.Value(header) {
+			return true
+		}
+		// any other spelling of "the message from its first byte": base[:k], base[0:k][:m] …
+		off, okO := constSliceOffset(sl.X, header.X)
+		return okO && off == 0
 	}
 	sa, oa := seal.Call.Args, open.Call.Args
 	c.Check(nonceOK(sa[1], eh) && isNilConst(sa[3]), rule, "Seal nonce = header[:NonceSize], AAD nil", c.at(seal), "Seal(payload[:0], header[:NonceSize()], payload, nil)",
